@@ -169,7 +169,7 @@ void run(size_t idx) {
 }
 
 MonReg reg({"C03", "exploration",
-			"files with a size table (20.2.0.5+): real samples, normal forms of synthesised files (FO3..SF, rotating focus types) and API-built models. An independent header writer renames a "
+			"files with a size table (20.2.0.5+): real samples, normal forms of synthesised files (FO3..SF, rotating focus types), API-built models and FO3 models whose NiSourceTexture file names the loader's path clean-up rewrites. The model reaches the saved object by a rotating route: fresh load, load into a used object, copy construction, assignment over a used object. An independent header writer renames a "
 			"set of type-table entries to names the library does not know; every non-empty subset when the table has <= 6 (quick) / 9 (thorough) entries, otherwise every singleton, the full "
 			"set and seeded random subsets. Oracle on the raw-saved and default-saved output, parsed by the independent reader: same block count, same type name at every index, identical "
 			"declared size and payload bytes for every re-labelled block, HasUnknown() set, input string table is a prefix of the output's. Non-trivial = subset that passes all comparisons.",
